@@ -178,3 +178,14 @@ Proof.
   intros E. apply parse_err_text_inj in E. discriminate.
 Qed.
 Print Assumptions C06_parse_error_value.
+
+(* BigInt::to_radix_be (the big-endian twin of C06_ito_radix_le had no theorem) *)
+Theorem C06_ito_radix_be : forall x r, 2 <= r <= 256 -> icanon x ->
+  i_to_radix_be radix x r = Ret (sg x, spec_to_radix_be (val (mag x)) r).
+Proof.
+  intros x r Hr Cx. unfold i_to_radix_be, ito_radix_be.
+  change (to_radix_be (k_mul radix) (k_divrem radix) (k_divdig radix) (k_to_bits radix) (k_to_inexact radix) radix (mag x) r)
+    with (u_to_radix_be radix (mag x) r).
+  rewrite C06_to_radix_be by (auto; apply Cx). reflexivity.
+Qed.
+Print Assumptions C06_ito_radix_be.
